@@ -782,8 +782,26 @@ class ReplaceSubstitution(Rule):
         }
 
     def eval(self, e: Expr, ctx: Context) -> Expr:
+        def subst_free(t: Expr, var: str, repl: Expr) -> Expr:
+            # The variable of an integral that is still to be evaluated is bound: leave it alone
+            if (t.is_indefinite_integral() or t.is_integral()) and t.var == var:
+                if t.is_integral():
+                    return Integral(t.var, subst_free(t.lower, var, repl), subst_free(t.upper, var, repl), t.body)
+                return t
+            elif t.is_op():
+                return Op(t.op, *[subst_free(arg, var, repl) for arg in t.args])
+            elif t.is_fun():
+                return Fun(t.func_name, *[subst_free(arg, var, repl) for arg in t.args])
+            elif t.is_integral():
+                return Integral(t.var, subst_free(t.lower, var, repl), subst_free(t.upper, var, repl),
+                                subst_free(t.body, var, repl))
+            elif t.is_indefinite_integral():
+                return IndefiniteIntegral(t.var, subst_free(t.body, var, repl), t.skolem_args)
+            else:
+                return t.subst(var, repl)
+
         for var, expr in ctx.get_substs().items():
-            e = e.subst(var, expr)
+            e = subst_free(e, var, expr)
         return e
 
 
